@@ -12,11 +12,11 @@ Open Scope Z_scope.
 Record oobs := mkObs {
   o_effs : list effect;
   o_job : job;
-  o_res : option (bool * Z)    (* reservation in the API: (has order label, owner kind) *)
+  o_res : option (bool * Z * bool)    (* reservation in the API: (has order label, owner kind, allocate-once) *)
 }.
 
 Definition obs_of (x : state * list effect) : oobs :=
-  mkObs (snd x) (sj (fst x)) (option_map (fun r => (rlabel r, rowner r)) (sr (fst x))).
+  mkObs (snd x) (sj (fst x)) (option_map (fun r => (rlabel r, rowner r, ronce r)) (sr (fst x))).
 
 (* the model's observations of a history, for a given variant of the controller and for the
    variant /repo currently is *)
@@ -62,7 +62,7 @@ Definition evict_other_nodeb (j0 : job) (obs : list oobs) : bool :=
 Definition eqb_bool (a b : bool) : bool := if a then b else negb b.
 Definition job_eqb (a b : job) : bool :=
   eqb_bool (paused a) (paused b) && eqb_bool (direct a) (direct b) && (ttl a =? ttl b)
-  && eqb_bool (pvalid a) (pvalid b) && (owner a =? owner b) && (puid a =? puid b)
+  && eqb_bool (pvalid a) (pvalid b) && (owner a =? owner b) && (tmpl a =? tmpl b) && (puid a =? puid b)
   && eqb_bool (rref a) (rref b) && (phase a =? phase b) && (sstatus a =? sstatus b)
   && (reason a =? reason b) && (jnode a =? jnode b) && (spodref a =? spodref b)
   && (cRC a =? cRC b) && (cRS a =? cRS b) && (cEv a =? cEv b) && (cPS a =? cPS b)
@@ -152,8 +152,65 @@ Fixpoint timeout_cleansb (mine : bool) (prev : job) (ops : list op) (obs : list 
   | _, _ => true
   end.
 
+(* ---- clause 10: "never while the reservation is ... bound to some other pod", judged on the
+   reservation's CurrentOwners at the instant of the eviction call rather than on its phase ----
+   [own] (= [mine] of clause 8) says, from the history alone, that the reservation in the API is the
+   one this job created and that the environment has since acted on it only in place (OSched /
+   OAlloc: the scheduler's status transitions), never replaced it. The controller is obliged to
+   create it allocate-once, so the scheduler marks it Succeeded as soon as a pod is allocated from
+   it; an eviction call against a reservation of its own making that lists a current owner is an
+   eviction while the capacity has been taken by another pod. (For a reservation supplied or
+   replaced by the environment, which may be reusable, only the phase is judged: clause 1.) *)
+Definition unbound_evicts (l : list effect) : Prop :=
+  forall e, In e l -> is_evict e = true -> st_rbound (est e) = 0 \/ st_rbound (est e) = st_puid (est e).
+Definition unbound_evictsb (l : list effect) : bool :=
+  forallb (fun e => negb (is_evict e) || (st_rbound (est e) =? 0) || (st_rbound (est e) =? st_puid (est e))) l.
+Fixpoint evict_unbound (own : bool) (ops : list op) (obs : list oobs) : Prop :=
+  match ops, obs with
+  | o :: t, ob :: tb =>
+      (own = true -> unbound_evicts (o_effs ob)) /\ evict_unbound (mine_next own o ob) t tb
+  | _, _ => True
+  end.
+Fixpoint evict_unboundb (own : bool) (ops : list op) (obs : list oobs) : bool :=
+  match ops, obs with
+  | o :: t, ob :: tb =>
+      (negb own || unbound_evictsb (o_effs ob)) && evict_unboundb (mine_next own o ob) t tb
+  | _, _ => true
+  end.
+
+(* ---- clause 11: finished jobs stay finished at the granularity of API WRITES ----
+   Within one operation, walking the recorded calls in order with the phase persisted so far
+   (starting from the job as it was before the operation): once a terminal phase is persisted no
+   later write of the job changes the phase and no eviction or reservation creation is attempted.
+   (Clause 2 is the same statement at the granularity of operations.) *)
+Definition after_terminal_ok (ph : Z) (e : effect) : Prop :=
+  match ek e with EEvict | ECreate => False | EWrite => eph e = ph | EDelete => True end.
+Definition after_terminal_okb (ph : Z) (e : effect) : bool :=
+  match ek e with EEvict | ECreate => false | EWrite => eph e =? ph | EDelete => true end.
+Definition ph_next (ph : Z) (e : effect) : Z := match ek e with EWrite => eph e | _ => ph end.
+Fixpoint wabs (ph : Z) (l : list effect) : Prop :=
+  match l with
+  | [] => True
+  | e :: t => (terminal ph = true -> after_terminal_ok ph e) /\ wabs (ph_next ph e) t
+  end.
+Fixpoint wabsb (ph : Z) (l : list effect) : bool :=
+  match l with
+  | [] => true
+  | e :: t => (negb (terminal ph) || after_terminal_okb ph e) && wabsb (ph_next ph e) t
+  end.
+Fixpoint write_absorbing (prev : job) (obs : list oobs) : Prop :=
+  match obs with
+  | [] => True
+  | o :: t => wabs (phase prev) (o_effs o) /\ write_absorbing (o_job o) t
+  end.
+Fixpoint write_absorbingb (prev : job) (obs : list oobs) : bool :=
+  match obs with
+  | [] => true
+  | o :: t => wabsb (phase prev) (o_effs o) && write_absorbingb (o_job o) t
+  end.
+
 (* ---- the property ---- *)
-(* clauses 1-7 *)
+(* clauses 1-7, 10, 11 *)
 Definition C17_core (j0 : job) (ops : list op) (obs : list oobs) : Prop :=
   length obs = length ops
   /\ evict_guard j0 obs
@@ -161,7 +218,9 @@ Definition C17_core (j0 : job) (ops : list op) (obs : list oobs) : Prop :=
   /\ timeout_deletes j0 obs
   /\ at_most_once ops obs
   /\ frame j0 ops obs
-  /\ evict_other_node j0 obs.
+  /\ evict_other_node j0 obs
+  /\ (direct j0 = false -> evict_unbound false ops obs)
+  /\ write_absorbing j0 obs.
 
 Definition C17_holds (j0 : job) (ops : list op) (obs : list oobs) : Prop :=
   C17_core j0 ops obs /\ timeout_cleans false j0 ops obs.
@@ -174,6 +233,8 @@ Definition prop_code (j0 : job) (ops : list op) (obs : list oobs) : Z :=
   else if negb (at_most_onceb ops obs) then 4
   else if negb (frameb j0 ops obs) then 5
   else if negb (evict_other_nodeb j0 obs) then 7
+  else if negb (direct j0 || evict_unboundb false ops obs) then 10
+  else if negb (write_absorbingb j0 obs) then 11
   else if negb (timeout_cleansb false j0 ops obs) then 8
   else 0.
 
